@@ -109,17 +109,58 @@ class Ev(object):
         self.items = [i]
 
 
+class Weighted(float):
+    """a number of a user's subclass of float that carries mutable attributes"""
+
+    def __new__(cls, i):
+        self = float.__new__(cls, i)
+        self.i = i
+        self.items = [i]
+        return self
+
+    def __reduce__(self):
+        return (_rebuild_weighted, (self.i, self.items))
+
+
+def _rebuild_weighted(i, items):
+    w = Weighted(i)
+    w.items = items
+    return w
+
+
+class Box(object):
+    """a user's object kept in a context (a mutable that is neither a dict nor a list)"""
+
+    def __init__(self, n):
+        self.notes = [n]
+
+    def __eq__(self, other):
+        return isinstance(other, Box) and self.notes == other.notes
+
+    __hash__ = object.__hash__
+
+
 def containers(x, acc=None, depth=0):
-    """every dict / list / event object reachable from x (through dicts, lists, tuples)"""
+    """every mutable object reachable from x: dicts, lists, sets, event objects and boxes
+    (looked for inside dicts, lists, tuples and those objects)"""
     if acc is None:
         acc = {}
     if depth > 12:
         return acc
-    if isinstance(x, Ev):
+    if isinstance(x, (Ev, Weighted)):
         if id(x) in acc:
             return acc
         acc[id(x)] = x
         containers(x.items, acc, depth + 1)
+        return acc
+    if isinstance(x, Box):
+        if id(x) in acc:
+            return acc
+        acc[id(x)] = x
+        containers(x.notes, acc, depth + 1)
+        return acc
+    if isinstance(x, set):
+        acc[id(x)] = x
         return acc
     if isinstance(x, dict):
         if id(x) in acc:
@@ -146,7 +187,10 @@ def scribble(x, mark):
         if isinstance(c, dict):
             c.clear()
             c["POISON"] = mark
-        else:
+        elif isinstance(c, set):
+            c.clear()
+            c.add("POISON-%s" % (mark,))
+        elif isinstance(c, list):
             del c[:]
             c.append("POISON-%s" % (mark,))
     return len(conts)
@@ -163,8 +207,12 @@ def canon(x, depth=0):
         return ("num", Fraction(x)) if x.is_finite() else ("dec", str(x))
     if isinstance(x, lena.structures.histogram):
         return ("histogram", canon(x.edges, depth + 1), canon(x.bins, depth + 1))
-    if isinstance(x, Ev):
+    if isinstance(x, (Ev, Weighted)):
         return ("ev", x.i, canon(x.items, depth + 1))
+    if isinstance(x, Box):
+        return ("box", canon(x.notes, depth + 1))
+    if isinstance(x, (set, frozenset)):
+        return ("set",) + tuple(sorted(repr(canon(y, depth + 1)) for y in x))
     if isinstance(x, tuple):
         return ("t",) + tuple(canon(y, depth + 1) for y in x)
     if isinstance(x, list):
@@ -346,12 +394,13 @@ def gen_split(tape, sc):
     sc.n = tape.draw(8, "flowlen")
     # what the values are: (data list, context) pairs, or bare event objects of a user's class
     # (hashable, mutable), or 1-tuples of them
-    sc.shape = tape.weighted([(6, "pair"), (1, "object"), (1, "object-tuple")], "value-shape")
+    sc.shape = tape.weighted([(6, "pair"), (1, "object"), (1, "object-tuple"), (1, "number-subclass")],
+                             "value-shape")
     sc.branches = []
     for b in range(sc.nb):
         br = Spec()
         if sc.driver == "run":
-            br.kind = tape.choice(["seq", "fc", "fr"], "branch-kind")
+            br.kind = tape.weighted([(3, "seq"), (3, "fc"), (3, "fr"), (1, "source")], "branch-kind")
         elif sc.driver in ("fill-compute", "zip-compute"):
             br.kind = "fc"
         else:
@@ -372,6 +421,9 @@ def gen_split(tape, sc):
         if sc.driver == "run" and br.kind != "seq" and tape.chance(1, 3, "slice"):
             br.slice = tape.draw(sc.n + 1, "slice-stop")
             br.slice_pos = tape.draw(nm + 1, "slice-pos")
+        if br.kind == "source":
+            br.slice = None
+            br.acc = None
         br.fr_bufsize = 1 + tape.draw(3, "fr-bufsize")
         br.fr_reset = bool(tape.draw(2, "fr-reset"))
         # the branch is itself a Split (or Zip) of two copies of the chain (with their own mutator codes)
@@ -394,12 +446,17 @@ def make_flow(n, ctx_class=dict, shape="pair"):
         return [Ev(i) for i in range(n)]
     if shape == "object-tuple":
         return [(Ev(i),) for i in range(n)]
+    if shape == "number-subclass":
+        return [Weighted(i) for i in range(n)]
     return [([i], ctx_class({"src": {"i": i}, "tags": []})) for i in range(n)]
 
 
 def build_branch(sc, b, store, sub=0):
     """list of elements of branch b (fresh objects); sub: copy number inside a nested branch"""
     br = sc.branches[b]
+    if br.kind == "source":
+        # a branch that does not read the flow
+        return [lambda: iter([([900 + k], {"src": {"i": 900 + k}, "tags": []}) for k in range(2)]), Tagger(b)]
     els = [Recorder(store)]
     muts = []
     for j, m in enumerate(br.muts):
@@ -456,6 +513,8 @@ def as_seq(sc, b, els, store=None):
         if br.nested == "Split":
             return lena.core.Split([one, two])
         return lena.flow.Zip([one, two])
+    if k == "source":
+        return lena.core.Source(*els)
     if k == "seq":
         return lena.core.Sequence(*els)
     if k == "fc":
@@ -520,7 +579,8 @@ def run_split(tape, res, sc):
         res.probe("three-or-more-branches")
     if sc.shape != "pair":
         res.probe("bare-event-objects-as-values")
-        res.say("  the values are %s" % ("bare event objects" if sc.shape == "object" else "1-tuples of event objects"))
+        res.say("  the values are %s" % {"object": "bare event objects", "object-tuple": "1-tuples of event objects",
+                                         "number-subclass": "numbers of a float subclass with mutable attributes"}[sc.shape])
     if sum(1 for br in sc.branches if "sharedupd" in br.muts) >= 2:
         res.probe("one-updatecontext-instance-in-two-branches")
     if sc.bufsize is not None and sc.bufsize < sc.n and d == "run":
@@ -694,6 +754,7 @@ def gen_acc(tape, sc):
         sc.acc2 = sc.acc
     sc.bufsize = tape.choice([1000, 1, None], "bufsize")
     sc.ctx_context_class = tape.chance(1, 4, "context-class")
+    sc.exotic_ctx = tape.chance(1, 3, "set-and-object-in-context")
     sc.ops = []
     nfill = 0
     ncomp = 0
@@ -730,7 +791,12 @@ def make_value(sc, x, ck, serial):
         return data
     if ck == "empty":
         return (data, cls({}))
-    return (data, cls({"a": {"n": serial}, "l": [serial], "k": "v%d" % serial}))
+    ctx = {"a": {"n": serial}, "l": [serial], "k": "v%d" % serial}
+    if getattr(sc, "exotic_ctx", False):
+        # mutable objects that are neither dictionaries nor lists
+        ctx["s"] = set([serial])
+        ctx["a"]["box"] = Box(serial)
+    return (data, cls(ctx))
 
 
 def run_acc(tape, res, sc):
